@@ -200,6 +200,67 @@ def g94_layout(ctx, b, label):
         ctx.compare('g94_read_electron', norm_read(got), norm_read(m), dict(replay, variant=variant))
 
 
+def tm_layout(ctx, b, label):
+    """the modelled Turbomole electron section (coq/Model/Turbomole.v, Proofs/TurbomoleSpec.v) against writers/turbomole.py and
+    readers/turbomole.py (input: the basis without its ECP part)"""
+    from basis_set_exchange import writers, readers, manip, sort
+    if ctx.model is None:
+        return
+    e = electron_only(b)
+    if not e['elements']:
+        return
+    w = impl.call(writers.write_formatted_basis_str, copy.deepcopy(e), 'turbomole')
+    pb = impl.call(lambda x: sort.sort_basis(manip.uncontract_spdf(manip.uncontract_general(x, True), 0, False), False), copy.deepcopy(e))
+    if w[0] != 'ok' or pb[0] != 'ok' or len(w[1]) > 200000:
+        return
+    els = [[int(z), el['electron_shells']] for z, el in pb[1]['elements'].items()]
+    replay = {'kind': 'tm-layout', 'label': label, 'input': e if len(str(e)) < 15000 else None}
+    ctx.case((label, 'tm-layout'), True, 'tm-layout')
+    ctx.compare('tm_write_electron', ('ok', w[1]), ctx.model.call('tm_write_electron', e.get('role', 'orbital'), e['name'], els), replay)
+    for variant, lines in (('as-written', w[1].splitlines()), ('damaged', damage_lines(w[1].splitlines(), random.Random(len(w[1]))))):
+        r = impl.call(readers.read_formatted_basis_str, '\n'.join(lines) + '\n', 'turbomole')
+        got = r
+        if r[0] == 'ok':
+            got = ('ok', [[int(z), el.get('electron_shells', [])] for z, el in r[1]['elements'].items()])
+        m = ctx.model.call('tm_read_electron', lines)
+        if m[0] == 'error' and 'NotImpl' in str(m[1]):
+            ctx.dist['tm-read:outside-modelled-fragment'] += 1
+            continue
+        ctx.case((label, 'tm-read', variant), True, 'tm-read:' + variant)
+        ctx.compare('tm_read_electron', norm_read(got), norm_read(m), dict(replay, variant=variant))
+
+
+def nwchem_whole(ctx, b, label):
+    """the whole NWChem file, electron and ECP sections (coq/Model/NwchemEcp.v, Proofs/NwchemEcpSpec.v)"""
+    from basis_set_exchange import writers, readers, manip, sort
+    if ctx.model is None or not any('ecp_potentials' in el for el in b['elements'].values()):
+        return
+    w = impl.call(writers.write_formatted_basis_str, copy.deepcopy(b), 'nwchem')
+    pb = impl.call(lambda x: sort.sort_basis(manip.uncontract_spdf(x, 1, True), False), copy.deepcopy(b))
+    if w[0] != 'ok' or pb[0] != 'ok' or len(w[1]) > 200000:
+        return
+    harm = 'cartesian' if 'gto_cartesian' in b['function_types'] else 'spherical'
+    els = [[int(z), el['electron_shells']] for z, el in pb[1]['elements'].items() if 'electron_shells' in el]
+    ecps = [[int(z), el['ecp_electrons'], el['ecp_potentials']] for z, el in pb[1]['elements'].items() if 'ecp_potentials' in el]
+    replay = {'kind': 'nwchem-whole', 'label': label, 'input': b if len(str(b)) < 15000 else None}
+    ctx.case((label, 'nwchem-whole'), True, 'nwchem-whole')
+    ctx.compare('nw_write_all', ('ok', w[1]), ctx.model.call('nw_write_all', harm, els, ecps), replay)
+
+    def shape(r):
+        if r[0] != 'ok':
+            return ('error', 'any')
+        out = []
+        for z, el in r[1]['elements'].items():
+            out.append([int(z), {'electron_shells': el.get('electron_shells', []), 'ecp_electrons': el.get('ecp_electrons'),
+                                 'ecp_potentials': el.get('ecp_potentials', [])}])
+        return ('ok', out)
+    for variant, lines in (('as-written', w[1].splitlines()), ('damaged', damage_lines(w[1].splitlines(), random.Random(len(w[1]) + 1)))):
+        r = impl.call(readers.read_formatted_basis_str, '\n'.join(lines) + '\n', 'nwchem')
+        m = ctx.model.call('nw_read_all', lines)
+        ctx.case((label, 'nwchem-whole-read', variant), True, 'nwchem-whole-read:' + variant)
+        ctx.compare('nw_read_all', shape(r), norm_read(m), dict(replay, variant=variant))
+
+
 def norm_read(r):
     if r[0] != 'ok':
         return ('error', 'any')      # the reader's error classes (RuntimeError / KeyError / IndexError ...) are not part of the property
@@ -281,6 +342,8 @@ def work_store(ctx, item):
         roundtrip(ctx, b, fmt, label, 'store')
     nwchem_layout(ctx, b, label)
     g94_layout(ctx, b, label)
+    tm_layout(ctx, b, label)
+    nwchem_whole(ctx, b, label)
     if rng.random() < (1.0 if ctx.thorough() else 0.4):
         file_and_convert(ctx, b, label, rng)
     ctx.sample({'store': label, 'formats': rw_formats()})
@@ -316,6 +379,8 @@ def work_generated(ctx, seed):
         roundtrip(ctx, b, fmt, 'gen:%d:%s' % (seed, kind), 'generated:' + kind)
     nwchem_layout(ctx, b, 'gen:%d:%s' % (seed, kind))
     g94_layout(ctx, b, 'gen:%d:%s' % (seed, kind))
+    tm_layout(ctx, b, 'gen:%d:%s' % (seed, kind))
+    nwchem_whole(ctx, b, 'gen:%d:%s' % (seed, kind))
     if seed % 5 == 0 and kind == 'plain':
         file_and_convert(ctx, b, 'gen:%d' % seed, rng)
 
